@@ -18,6 +18,7 @@ show what was wrong, `*_partial` what held all the same.
 -/
 import AGH.Lemmas.DHCPAnswers
 import AGH.Lemmas.LeaseDBCodec
+import AGH.Gen.C10Steps
 namespace AGH.C10
 open AGH
 
@@ -439,6 +440,64 @@ example : HostComplete (run O0 c0 State.init (opsOK.take 5)) ∧
 
 /-- `C10_reserved_client_gets_reservation` is not vacuous: the reserved client is offered its reservation. -/
 example : (step O0 c0 (run O0 c0 State.init opsOK) (.discover mA)).2 = { rc := 1, typ := 2, yi := 20, err := "ok" } := by
+  decide
+
+/-! ## Translator tie: the order of the lease-table steps (regenerated per run)
+
+`extract/cmd/c10` rewrites `Gen/C10Steps.lean` from the typed syntax of
+`internal/dhcpd/v4_unix.go`: for each lease-table function the calls of
+package-`dhcpd` callees in source order (`defer:` marks deferred ones,
+`notify:<event>` the configuration's callback).  The model's operations
+(`Model/DHCP.lean`) perform their table steps in exactly this order; the
+invariant proofs (`C10_inv_step`) go through the intermediate tables in that
+order, and the persistence clause rests on every mutating entry point storing
+the table (`notify:LeaseChangedDBStore`) on EVERY path, also the failing ones. -/
+
+/-- Is `a` somewhere before `b` in `l`? -/
+def before (a b : String) (l : List String) : Bool :=
+  match l.dropWhile (· != a) with
+  | [] => false
+  | _ :: rest => rest.contains b
+
+def stepsOf (f : String) : List String := ((Gen.C10.leaseSteps.find? (·.1 == f)).map (·.2)).getD []
+
+/-- The current source performs the lease-table steps in the order the model
+assumes. -/
+theorem C10_T_lease_step_order :
+    Gen.C10.leaseSteps =
+      [ ("AddStaticLease", ["normalizeHostname", "updateStaticLease", "notify:LeaseChangedDBStore",
+          "notify:LeaseChangedDBStore", "notify:LeaseChangedAddedStatic"]),
+        ("UpdateStaticLease", ["defer:notify:LeaseChangedDBStore", "defer:notify:LeaseChangedRemovedStatic",
+          "findLease", "validateStaticLease", "rmLease", "addLease"]),
+        ("RemoveStaticLease", ["defer:notify:LeaseChangedDBStore", "defer:notify:LeaseChangedRemovedStatic", "rmLease"]),
+        ("updateStaticLease", ["rmDynamicLease", "addLease"]),
+        ("rmDynamicLease", ["rmLeaseByIndex"]),
+        ("addLease", ["offset", "set"]),
+        ("rmLease", ["rmLeaseByIndex"]),
+        ("reserveLease", ["nextIP", "findExpiredLease", "addLease"]),
+        ("commitLease", ["validHostnameForClient"]),
+        ("allocateLease", ["reserveLease", "addrAvailable", "blocklistLease"]),
+        ("handleDiscover", ["defer:notify:LeaseChangedDBStore", "findLease", "allocateLease"]),
+        ("handleDecline", ["defer:notify:LeaseChangedDBStore", "findLeaseForIP", "rmDynamicLease", "allocateLease"]),
+        ("handleRelease", ["defer:notify:LeaseChangedDBStore", "rmDynamicLease"]),
+        ("ResetLeases", ["newBitSet", "validHostnameForClient", "addLease"]) ] := by
+  decide
+
+/-- What the proofs use of that table, stated on the regenerated facts: a static
+add removes the clashing dynamic leases BEFORE it inserts; it stores the table
+on the failing path as well as on the success path (two store notifications
+after `updateStaticLease`) and announces the new static lease only after the
+store; a fresh address is looked for before an expired lease is recycled; every
+request handler that may change the table stores it when it returns. -/
+theorem C10_T_step_order_consequences :
+    before "rmDynamicLease" "addLease" (stepsOf "updateStaticLease") = true ∧
+      ((stepsOf "AddStaticLease").dropWhile (· != "updateStaticLease")).count "notify:LeaseChangedDBStore" = 2 ∧
+      before "notify:LeaseChangedDBStore" "notify:LeaseChangedAddedStatic" (stepsOf "AddStaticLease") = true ∧
+      before "nextIP" "findExpiredLease" (stepsOf "reserveLease") = true ∧
+      before "findExpiredLease" "addLease" (stepsOf "reserveLease") = true ∧
+      ["handleDiscover", "handleDecline", "handleRelease"].all
+        (fun f => (stepsOf f).contains "defer:notify:LeaseChangedDBStore") = true ∧
+      before "rmLease" "addLease" (stepsOf "UpdateStaticLease") = true := by
   decide
 
 end AGH.C10
